@@ -14,10 +14,11 @@
 (*            Boolean ones range over {true,false}, and every numeric one  *)
 (*            is an integer whose bounds lo <= x <= hi are themselves      *)
 (*            members of F and whose grid contains lo..hi.                 *)
-(*            (Refutations outside this fragment come from Refute.tla.)    *)
+(*            Outside this fragment: Refute!Refute (lazy SMT by enumeration *)
+(*            with Fourier-Motzkin and congruence-closure relaxations).    *)
 (*  "unknown" otherwise.  Monitors never raise on "unknown".               *)
 (***************************************************************************)
-EXTENDS Terms
+EXTENDS Refute
 
 \* dom : sequence of [nm |-> symbol, s |-> sort, vals |-> <<constant term ids>>]
 \*       one entry per nullary symbol the search may vary
@@ -113,12 +114,16 @@ GridWitness(tt, F, base, dom) ==
   /\ OpenSyms(tt, F, base) \subseteq DomNames(rd)
   /\ ExistsGrid(tt, F, base, rd, 1, <<>>)
 
+\* the Boolean constants are always present in a table written by the harness
+TrueId(tt)  == CHOOSE i \in DOMAIN tt : tt[i].k = "b" /\ tt[i].n = 1
+FalseId(tt) == CHOOSE i \in DOMAIN tt : tt[i].k = "b" /\ tt[i].n = 0
+
 SatStatus(tt, F, base, hints, dom) ==
   IF F = {} THEN "sat"
   ELSE IF HintWitness(tt, F, base, hints) THEN "sat"
   ELSE IF OpenSyms(tt, F, base) \subseteq DomNames(dom)
        THEN IF GridWitness(tt, F, base, dom) THEN "sat"
             ELSE IF GridComplete(tt, F, base, RelevantDom(tt, F, base, dom)) THEN "unsat"
-            ELSE "unknown"
-       ELSE "unknown"
+            ELSE IF Refute(tt, F, TrueId(tt), FalseId(tt)) THEN "unsat" ELSE "unknown"
+       ELSE IF Refute(tt, F, TrueId(tt), FalseId(tt)) THEN "unsat" ELSE "unknown"
 =============================================================================
